@@ -1988,3 +1988,34 @@ func c02MatcherVerbatim(c *Ctx, r *Report, rule string) {
 	}
 	_ = n // "for every" rule: the wrapper shadows nothing on the pinned tree; seed C02-m17 is the positive example
 }
+
+// c16ContextReadOnly (…/context-read-only): the per-worker match context is
+// re-pointed at every line by plain field stores in processLineSync; nothing
+// tells the context that its inputs changed. Any state a method of the
+// context keeps in its receiver (a memoised view, a last-lookup cache) is
+// therefore computed from a previous line unless it is keyed by *all* inputs -
+// and the line number restarts for every source, so it is not even unique.
+// Methods of the context assign no field of their receiver: the same match
+// always yields the same text because the text is computed from the match.
+func c16ContextReadOnly(c *Ctx, r *Report, rule string) {
+	n := 0
+	for _, fi := range c.AllFuncDecls(extractorPkg) {
+		fd := fi.Decl
+		if fd.Recv == nil || len(fd.Recv.List) != 1 || len(fd.Recv.List[0].Names) != 1 || recvTypeName(fd.Recv.List[0].Type) != "SliceSpaceExpressionContext" {
+			continue
+		}
+		info := fi.Pkg.TypesInfo
+		recv := info.Defs[fd.Recv.List[0].Names[0]]
+		n++
+		ws := recvFieldWrites(info, recv, fd.Body)
+		var names []string
+		for _, w := range ws {
+			names = append(names, w.Name())
+		}
+		names = dedupStrings(names)
+		sort.Strings(names)
+		r.Check(len(names) == 0, rule, fi.Name, "receiver fields are only read", c.Pos(fd.Pos()), "effect: the method computes from the match it is given and keeps nothing in the context",
+			"a method of the match context stores to its own field(s) "+strings.Join(names, ", ")+": the context is re-pointed at the next line by plain field stores in processLineSync, which cannot invalidate that state (and line numbers restart for every source), so a later match can be answered with text computed for an earlier one")
+	}
+	r.Floor(rule, 3, "GetMatch, GetKey, json, array")
+}
